@@ -74,6 +74,10 @@ SW_X = 'def first() -> int:\n\treturn 1\n\ndef second() -> int:\n\treturn 2\n'
 SW_Y = "def first() -> str:\n\treturn 'one'\n\ndef second() -> str:\n\treturn 'two'\n"
 SW_TOP = {'v0': 'from proj.sb import first\nfrom proj.sc import second\n\ndef run() -> None:\n\tx = first()\n\ty = x\n\tz = second()\n\tw = z\n\tprint(y, w)\n'}
 
+# crlf2: the pair graph saved with CRLF line ends (what an editor on another platform writes)
+CR_A = {k: v.replace('\n', '\r\n') for k, v in {'v0': 'def ca() -> int:\n\treturn 1\n', 'vT': "def ca() -> str:\n\treturn 's'\n"}.items()}
+CR_B = {'v0': 'from proj.ca import ca\n\nVCB = ca()\n'.replace('\n', '\r\n')}
+
 GRAPHS = {
     'pair': {'proj/a.py': A, 'proj/b.py': B},
     'chain3': {'proj/a.py': A, 'proj/b.py': B, 'proj/bb.py': C},
@@ -82,6 +86,7 @@ GRAPHS = {
     'prefix3': {'proj/node.py': P3_NODE, 'proj/visitor.py': P3_VISITOR, 'proj/node_types.py': P3_TYPES},
     'incl3': {'proj/base.py': I3_BASE, 'proj/ext/fmt.py': I3_EXT, 'proj/usea.py': I3_USE_A, 'proj/useb.py': I3_USE_B},
     'twins': {'proj/ta.py': TW_A, 'proj/tb.py': TW_B},
+    'crlf2': {'proj/ca.py': CR_A, 'proj/cb.py': CR_B},
     'swap3': {'proj/s.py': SW_TOP, 'proj/sb.py': {'v0': SW_X, 'vT': SW_Y}, 'proj/sc.py': {'v0': SW_Y, 'vT': SW_X}},
 }
 IMPORTS = {
@@ -92,6 +97,7 @@ IMPORTS = {
     'prefix3': {'proj/node.py': ['proj/visitor.py'], 'proj/visitor.py': ['proj/node_types.py']},
     'incl3': {'proj/usea.py': ['proj/base.py'], 'proj/useb.py': ['proj/ext/fmt.py']},
     'twins': {},
+    'crlf2': {'proj/cb.py': ['proj/ca.py']},
     'swap3': {'proj/s.py': ['proj/sb.py', 'proj/sc.py']},
 }
 
